@@ -25,6 +25,8 @@ THEOREMS = ['C15.quotes_table_ok', 'C15.bool_table_ok', 'C15.lists_table_ok', 'C
             'C15.string_variants_roundtrip', 'C15.name_unescape_escape', 'C15.name_escape_roundtrip_partial',
             'C15.name_escape_counterexample', 'C15.reset_channel_follows', 'C15.source_constants_ok',
             'C15.socket_timeout_verdict', 'C15.socket_timeout_reject_atomic',
+            'C15.validators_check_before_store', 'C15.guarded_verdict', 'C15.guarded_string_roundtrip', 'C15.only_some_strings_roundtrip',
+            'C15.json_roundtrip', 'C15.float_roundtrip', 'C15.regexp_roundtrip',
             'C15.save_load_roundtrip', 'C15.save_load_counterexample', 'C15.rt_string', 'C15.rt_bool', 'C15.rt_int']
 TRUSTED = ['Lean 4.33.0 kernel; axioms ⊆ {propext, Classical.choice, Quot.sound}',
            'harness/extractors/registry.py (constants of src/registry.py, utils/str.py, class inventory → Gen/Registry.lean)',
@@ -743,6 +745,70 @@ def stream_oracle_only(I, R, r, n):
                           oracle_msg='' if outcome is None else '%s value %r (seen as %r) saved as %r: %s' % (name, v, before, file_value_lines(text), outcome),
                           kind='oracle-only', tags=('oracle-only', 'oo-' + name)))
 
+
+# ------------------------------------------------------------------------------------------
+# conf.py validators and the remaining registry classes whose registry layer is in the model
+# ------------------------------------------------------------------------------------------
+def stream_validators(I, R, r, n):
+    conf = I.conf; reg = I.registry
+    class Tmpl(reg.TemplatedString):
+        requiredTemplates = ['foo']
+    OSS = [('ValidBrackets', conf.ValidBrackets, '[]'), ('ValidSaslMechanism', conf.ValidSaslMechanism, 'plain'),
+           ('ValidDriverModule', conf.ValidDriverModule, 'default')]
+    GUARDED = [('ValidNick', lambda: conf.ValidNick('x', 'h')), ('ValidNickOrEmpty', lambda: conf.ValidNickOrEmpty('', 'h')),
+               ('ValidHostmask', lambda: conf.ValidHostmask('a!b@c', 'h')), ('TemplatedString', lambda: Tmpl('$foo', 'h')),
+               ('IP', lambda: conf.IP('', 'h')), ('ValidNickAllowingPercentS', lambda: conf.ValidNickAllowingPercentS('x', 'h'))]
+    WORDS = ['', '[]', '<>', '{}', '()', '[)', 'plain', 'PLAIN', 'Plain', 'external', 'scram-sha-256', 'default', 'socket', 'Socket', 'x', ' []',
+             'foo', 'a[b]', 'x\\', '`q`', '1abc', 'a b', 'a!b@c', '*!*@*', 'nick!user', '$foo', 'x ${foo} y', '$foobar', '127.0.0.1', '::1', '999.1.1.1',
+             '%s', 'n%s', '"', "'", '`', '"`\'', '@!', '~#$', 'a@', '"[]"', "'plain'", '"a[b]"', "'\\x5b\\x5d'", '"\\"', 'é']
+    for _ in range(n):
+        x = r.random(); text = r.choice(WORDS)
+        if r.random() < 0.2: text = gen_text_for(r, 'plain')
+        if not valid_unicode(text): continue
+        if x < 0.3:
+            nm, cls, d = r.choice(OSS)
+            node = cls(d, 'h'); cur = node.value
+            res = I.set_text(node, text)
+            ok = not (res == 'error' and node.value != cur)
+            R.add(Case({'op': 'oss_set', 'class': nm, 'text': text}, impl=None if res == 'unm' else res, oracle_ok=ok, kind='validator',
+                       oracle_msg='' if ok else '%s.set(%r) was rejected but the value changed' % (nm, text), tags=('oss', 'oss-' + res.split('\t')[0])),
+                  'oss_set\t%s\t%s\t%s' % (nm, PR(text), wire.enc(text)),
+                  (lambda o, c: None) if res == 'unm' else post_unm(lambda c: unm_justified_lit(strset_text('plain', c.input['text']))))
+        elif x < 0.45:
+            node = conf.ValidPrefixChars('', 'h'); res = I.set_text(node, text)
+            R.add(Case({'op': 'vpc_set', 'text': text}, impl=None if res == 'unm' else res, kind='validator', tags=('vpc', 'vpc-' + res.split('\t')[0])),
+                  'vpc_set\t%s\t%s' % (PR(text), wire.enc(text)),
+                  (lambda o, c: None) if res == 'unm' else post_unm(lambda c: unm_justified_lit(strset_text('plain', c.input['text']))))
+        elif x < 0.55:
+            node = conf.ValidQuotes('"', 'h'); res = I.set_text(node, text)
+            R.add(Case({'op': 'vq_set', 'text': text}, impl=res, kind='validator', tags=('vq', 'vq-' + res.split('\t')[0])), 'vq_set\t' + wire.enc(text))
+        else:
+            nm, mk = r.choice(GUARDED)
+            # the predicate is a parameter of the model: instantiate it on the one value String.set can hand to setValue
+            probe = reg.String('', 'h'); pres = I.set_text(probe, text)
+            okvals = []
+            if pres.startswith('ok'):
+                v0 = probe.value
+                try:
+                    t2 = mk(); t2.setValue(v0)
+                    if t2.value == v0: okvals = [v0]
+                    else: okvals = None           # the class changed the value: not of the guarded shape
+                except Exception:          # InvalidRegistryValue, or a ValueError from the predicate itself (inet_pton on NUL)
+                    okvals = []
+            node = mk(); cur = node.value
+            res = I.set_text(node, text)
+            if res.startswith('crash'): res = 'error'
+            ok = not (res == 'error' and node.value != cur)
+            if okvals is None:
+                R.add_oracle(Case({'op': 'guard_set', 'class': nm, 'text': text}, oracle_ok=False, kind='validator',
+                                  oracle_msg='%s.setValue stores something else than the value it was given' % nm, tags=('guard',)))
+                continue
+            R.add(Case({'op': 'guard_set', 'class': nm, 'text': text}, impl=None if res == 'unm' else res, oracle_ok=ok, kind='validator',
+                       oracle_msg='' if ok else '%s.set(%r) was rejected but the value changed' % (nm, text),
+                       tags=('guard', 'guard-' + nm, 'guard-' + res.split('\t')[0])),
+                  'guard_set\t%s\t%s\t%s' % (wire.enc_list(okvals), PR(text), wire.enc(text)),
+                  (lambda o, c: None) if res == 'unm' else post_unm(lambda c: unm_justified_lit(strset_text('plain', c.input['text']))))
+
 # ------------------------------------------------------------------------------------------
 # value tree histories
 # ------------------------------------------------------------------------------------------
@@ -1431,6 +1497,7 @@ def explore(ctx, scale, seed_stream='c15'):
     stream_names(I, R, r, 1500 * scale)
     stream_close(I, R, r, 400 * scale)
     stream_oracle_only(I, R, r, 1500 * scale)
+    stream_validators(I, R, r, 1200 * scale)
     stream_tree(I, R, r, 250 * scale)
     stream_live(I, R, r, 40 * min(scale, 10))
     stream_sweep(I, R, r, 6 if scale == 1 else 25)
